@@ -37,3 +37,42 @@ def register(w):
             "forall[int](lambda i: implies(0 <= i and i < len(path) - 1, path[i].parent == path[i + 1]))",
             "forall[int](lambda i: implies(0 <= i and i < len(path), path[i] != None and anc(to_state, path[i]) and path[i] != stop_at and path[i].depth == to_state.depth - i))",
         ], decreases="ite(current != None, current.depth + 1, 0)")
+
+
+    @w.contract(BI + "_is_descendant", also=[SN + "_is_descendant"], props=["C01", "C03", "C10"])
+    def _(c):
+        c.param("node", Node).param("ancestor", Node).returns(BOOL)
+        c.req("node != None")
+        c.pure = True
+        c.returns_expr = "ancestor == None or anc(node, ancestor)"
+        c.ens("result == (ancestor == None or anc(node, ancestor))", label="descendant-iff-ancestor-relation")
+
+
+    @w.contract(BI + "_find_transition_domain", props=["C01", "C03"])
+    def _(c):
+        c.param("transition", Trans).param("target_state", Node).returns(Node)
+        c.req("transition != None and transition.source != None and target_state != None")
+        S, T = "transition.source", "target_state"
+        c.ens("result != None", label="domain-exists")
+        c.ens(f"anc({S}, result) and anc({T}, result)", label="domain-contains-source-and-target")
+        c.ens(f"implies({T} != root, result != {T})", label="domain-is-proper-ancestor-of-target")
+        c.ens(f"implies({T} == {S}, result == ite({S}.parent != None, {S}.parent, root))", label="self-transition-domain-is-parent")
+        c.ens(f"implies({T} != {S} and anc({S}, {T}), result == ite({T}.parent != None, {T}.parent, root))", label="target-is-ancestor-domain-is-its-parent")
+        c.ens(f"implies(not anc({S}, {T}), forall[Node](lambda k: implies(anc({S}, k) and anc({T}, k), anc(result, k))))", label="otherwise-least-common-ancestor")
+
+
+    A = "self._active_state_nodes"
+
+    @w.contract(BI + "_compute_states_to_exit", props=["C01", "C03", "C16"])
+    def _(c):
+        c.param("domain", Node).param("target_state", Node).returns(SetSort(Node))
+        c.req("target_state != None", f"forall[Node](lambda n: implies(n in {A}, n != None))")
+        BELOW = f"(n in {A} and n != domain and (domain == None or anc(n, domain)))"
+        REGION = "(domain != None and domain.type == 'parallel' and anc(target_state, domain) and target_state != domain)"
+        c.ens(f"forall[Node](lambda n: implies(n in result, {BELOW}))", label="only-active-proper-descendants-of-the-domain")
+        c.ens(f"implies(not {REGION}, forall[Node](lambda n: implies({BELOW}, n in result)))", label="whole-subtree-unless-parallel-domain")
+        c.ens(f"implies({REGION}, forall[Node](lambda n: (n in result) == (n in {A} and anc(n, child_toward(domain, target_state)))))", label="parallel-domain-only-the-target-region")
+        c.loop(0, inv=[
+            "branch == None or anc(target_state, branch)",
+            f"implies({REGION}, branch != None and anc(branch, domain) and branch != domain)",
+        ], decreases="ite(branch != None, branch.depth + 1, 0)")
